@@ -29,12 +29,13 @@ VARIABLES l,        \* index of the next line
           sto,      \* node number -> last observed store listing
           psto,     \* node number -> previous observed store listing
           rrv,      \* node number -> (event -> round-received as observed)
+          meta,     \* the x record of the segment's Init line (scenario parameters)
           sub,      \* submitted transaction ids -> node
           viol,     \* accumulated property violations
           drift,    \* accumulated conformance mismatches
           stats     \* counters (for vacuity control)
 
-vars == << l, D, nodes, dlv, sto, psto, rrv, sub, viol, drift, stats >>
+vars == << l, D, nodes, dlv, sto, psto, rrv, meta, sub, viol, drift, stats >>
 
 Line == Trace[l]
 NodeNums == DOMAIN nodes
@@ -94,16 +95,24 @@ Inv_C04_Once(dv) ==
 
 \* ancestry comes from the parents recorded by the driver only.  rv: the
 \* round-received the implementation reported for each event of this node.
-\* (i) a parent is received no later than its child - checked when the child
-\* is received; by induction over ancestry every ancestor is received no later;
+\* (i) when a block is delivered, both parents of each of its events have
+\* been received, in that round or an earlier one (a parent may be received
+\* later in time than its child while an intermediate round is undecided, but
+\* not later than the delivery of the child's block); by induction over
+\* ancestry every ancestor is committed no later;
 \* (ii) a block holds exactly the events received in its round, and inside it
 \* parents precede children.  Blocks are delivered in increasing
 \* round-received (C02), so the committed order extends ancestry.
 Inv_C04_Causal(DD, rv, o) ==
-    \A k \in 1..Len(o.rr) :
-        LET e == o.rr[k].e
-            okp(p) == p = "" \/ p \notin DOMAIN DD \/ (p \in DOMAIN rv /\ rv[p] <= rv[e])
-        IN  okp(DD[e].sp) /\ okp(DD[e].op)
+    \A k \in 1..Len(o.blocks) :
+        LET b == o.blocks[k]
+            okp(p) == p = "" \/ p \notin DOMAIN DD \/ (p \in DOMAIN rv /\ rv[p] <= b.rr)
+        IN  \A i \in 1..Len(b.evs) : okp(DD[b.evs[i]].sp) /\ okp(DD[b.evs[i]].op)
+
+\* an event is never received in a round whose frame was already processed
+\* (it would never be committed)
+Inv_C04_NoLateReceive(lcrBefore, o) ==
+    \A k \in 1..Len(o.rr) : o.rr[k].rr > lcrBefore
 
 Inv_C04_BlockIsFrame(DD, rv, o) ==
     \A k \in 1..Len(o.blocks) :
@@ -129,7 +138,7 @@ Inv_C05_OnlySubmittedOnce(dv, sb) ==
 
 \* C05: an accepted transaction is in the pool or in exactly one own event
 Inv_C05_NeverDropped(DD, nds, sb, poolOf) ==
-    \A t \in DOMAIN sb :
+    \A t \in { u \in DOMAIN sb : sb[u] \in DOMAIN nds } :
         LET n == sb[t]
             inPool == SeqContains(poolOf[n], t)
             inEvents == { e \in DOMAIN DD : DD[e].c = nds[n].h.me /\ SeqContains(DD[e].txs, t) }
@@ -140,10 +149,23 @@ Inv_C05_NeverDropped(DD, nds, sb, poolOf) ==
 Inv_C18_IsMedian(DD, b) ==
     LET tss == [ k \in 1..Len(b.fws) |-> DD[b.fws[k]].ts ]
         br == MedianBracket(tss)
-        anyBig == \E k \in 1..Len(b.fws) : DD[b.fws[k]].big
+        \* values beyond +-2^28 are order-preserving markers, not exact
+        exact(v) == v > -268435456 /\ v < 268435456
     IN  IF Len(b.fws) = 0 THEN TRUE
-        ELSE IF ~anyBig /\ ~b.big THEN b.ts = Median(tss)
-        ELSE br[1] <= b.ts /\ b.ts <= br[2]
+        ELSE IF exact(br[1]) /\ exact(br[2])
+             THEN (~b.big) /\ b.ts = HalfTrunc(br[1] + br[2])
+             ELSE br[1] <= b.ts /\ b.ts <= br[2]
+
+\* C18: with fewer than a third of the round's validators lying, the block
+\* timestamp lies within the range claimed by the honest famous witnesses
+Inv_C18_Bounded(DD, b, liars) ==
+    LET ps == SeqToSet(b.peers)
+        hon == { w \in SeqToSet(b.fws) : DD[w].c \notin liars }
+        hts == { DD[w].ts : w \in hon }
+    IN  (3 * Cardinality(liars \cap ps) < Cardinality(ps) /\ hon # {}) =>
+            (MinOfSet(hts, 0) <= b.ts /\ b.ts <= MaxOfSet(hts, 0))
+
+Liars(mt) == IF "liars" \in DOMAIN mt THEN SeqToSet(mt.liars) ELSE {}
 
 -----------------------------------------------------------------------------
 (* Conformance checks: specification result = logged implementation result *)
@@ -296,6 +318,7 @@ TInit ==
     /\ sto = EmptyFun
     /\ psto = EmptyFun
     /\ rrv = EmptyFun
+    /\ meta = [ nc |-> 0 ]
     /\ sub = EmptyFun
     /\ viol = {}
     /\ drift = {}
@@ -313,6 +336,7 @@ TraceReset ==
            /\ psto' = [ n \in ns |-> << >> ]
            /\ rrv' = [ n \in ns |-> << >> ]
     /\ D' = EmptyFun
+    /\ meta' = Line.x
     /\ sub' = EmptyFun
     /\ stats' = Bump(Bump(stats, "traces"), "lines")
     /\ UNCHANGED << viol, drift >>
@@ -321,14 +345,15 @@ TraceCreate ==
     /\ Line.a = "Create"
     /\ D' = Ext(D, Line.x.id, EvRec(Line.x))
     /\ stats' = Bump(Bump(stats, "creates"), "lines")
-    /\ UNCHANGED << nodes, dlv, sto, psto, rrv, sub, viol, drift >>
+    /\ UNCHANGED << nodes, dlv, sto, psto, rrv, meta, sub, viol, drift >>
 
 TraceSubmit ==
     /\ Line.a = "Submit"
-    /\ nodes' = [ nodes EXCEPT ![Line.n].txpool = Append(@, Line.x.tx) ]
+    /\ nodes' = IF Line.n \in DOMAIN nodes
+                THEN [ nodes EXCEPT ![Line.n].txpool = Append(@, Line.x.tx) ] ELSE nodes
     /\ sub' = Ext(sub, Line.x.tx, Line.n)
     /\ stats' = Bump(stats, "lines")
-    /\ UNCHANGED << D, dlv, sto, psto, rrv, viol, drift >>
+    /\ UNCHANGED << D, dlv, sto, psto, rrv, meta, viol, drift >>
 
 \* Everything a Sync line implies, computed once (TLC caches LET values inside
 \* an operator, not inside an action).
@@ -354,12 +379,14 @@ SyncOutcome(n, x, o) ==
              \cup Checks("C04", "Inv_C04_Once", o.blocks = << >> \/ Inv_C04_Once(dlv1))
              \cup Checks("C04", "Inv_C04_Causal", Inv_C04_Causal(D, rv1, o))
              \cup Checks("C04", "Inv_C04_BlockIsFrame", Inv_C04_BlockIsFrame(D, rv1, o))
+             \cup Checks("C04", "Inv_C04_NoLateReceive", Inv_C04_NoLateReceive(nd.h.lcr, o))
              \cup Checks("C04", "Inv_C04_Payload", o.blocks = << >> \/ Inv_C04_Payload(D, dlv1[n], from))
              \cup Checks("C05", "Inv_C05_OnlySubmittedOnce", o.blocks = << >> \/ Inv_C05_OnlySubmittedOnce(dlv1, sub))
              \cup Checks("C05", "Inv_C05_NeverDropped",
                          Inv_C05_NeverDropped(D, nodes1, sub, [ m \in DOMAIN nodes1 |-> IF m = n THEN AsSeq(o.txpool) ELSE nodes1[m].txpool ]))
              \cup Checks("C07", "Inv_C07_OnlyAdmissible", r.adm)
              \cup Checks("C18", "Inv_C18_IsMedian", \A k \in 1..Len(o.blocks) : Inv_C18_IsMedian(D, o.blocks[k]))
+             \cup Checks("C18", "Inv_C18_Bounded", \A k \in 1..Len(o.blocks) : Inv_C18_Bounded(D, o.blocks[k], Liars(meta)))
         F == Checks("-", "Conf_Vals", ConfVals(h1, o))
              \cup Checks("-", "Conf_RR", ConfRR(h1, o))
              \cup Checks("-", "Conf_Rounds", ConfRounds(h1, o))
@@ -391,18 +418,70 @@ TraceSync ==
           /\ viol' = R.viol
           /\ drift' = R.drift
           /\ stats' = R.stats
-    /\ UNCHANGED << D, sub >>
+    /\ UNCHANGED << D, sub, meta >>
+
+-----------------------------------------------------------------------------
+(* C19: rows tabulated from the real PeerSet: << n, SuperMajority, TrustCount, Len >> *)
+
+QLeast(m, k) == 3 * m > 2 * k /\ 3 * (m - 1) <= 2 * k
+QFMax(k) == (k - 1) \div 3
+
+Inv_C19_SuperMajority(r) == QLeast(r[2], r[1])
+Inv_C19_Trust(r) ==
+    LET k0 == r[3] + 1 IN
+    /\ 3 * k0 > r[1] /\ ((k0 = 1) <=> (r[1] = 1)) /\ k0 <= r[1] /\ k0 > QFMax(r[1])
+Inv_C19_Lemmas(r) ==
+    /\ 3 * (2 * r[2] - r[1]) > r[1]
+    /\ r[2] - QFMax(r[1]) > QFMax(r[1])
+    /\ r[4] = r[1]
+\* acceptance: << n, k, anchored, checked >>
+Inv_C19_Accept(r) ==
+    LET ok(acc) == /\ acc => (3 * r[2] > r[1] /\ (r[2] = 1 => r[1] = 1))
+                   /\ (r[2] = r[1]) => acc          \* signed by everyone: trusted
+                   /\ acc <=> (r[2] > TrustCount(r[1]))
+    IN  ok(r[3]) /\ ok(r[4])
+
+TraceQuorum ==
+    /\ Line.a = "Quorum"
+    /\ \E R \in { LET rows == Line.x.rows
+                       V == Checks("C19", "Inv_C19_SuperMajority", \A k \in 1..Len(rows) : Inv_C19_SuperMajority(rows[k]))
+                            \cup Checks("C19", "Inv_C19_Trust", \A k \in 1..Len(rows) : Inv_C19_Trust(rows[k]))
+                            \cup Checks("C19", "Inv_C19_Lemmas", \A k \in 1..Len(rows) : Inv_C19_Lemmas(rows[k]))
+                       F == Checks("-", "Conf_Quorum", \A k \in 1..Len(rows) :
+                                     SuperMajority(rows[k][1]) = rows[k][2] /\ TrustCount(rows[k][1]) = rows[k][3])
+                   IN  [ v |-> V, f |-> F, n |-> Len(rows) ] } :
+          /\ viol' = AddCapped(viol, R.v)
+          /\ drift' = AddCapped(drift, R.f)
+          /\ stats' = [ stats EXCEPT !.lines = @ + 1, !.inserts = @ + R.n ]
+    /\ UNCHANGED << D, nodes, dlv, sto, psto, rrv, meta, sub >>
+
+TraceQuorumAccept ==
+    /\ Line.a = "QuorumAccept"
+    /\ LET rows == Line.x.rows IN
+       /\ viol' = AddCapped(viol, Checks("C19", "Inv_C19_Accept", \A k \in 1..Len(rows) : Inv_C19_Accept(rows[k])))
+       /\ stats' = [ stats EXCEPT !.lines = @ + 1, !.inserts = @ + Len(rows), !.blocks = @ + Len(rows) ]
+    /\ UNCHANGED << D, nodes, dlv, sto, psto, rrv, meta, sub, drift >>
+
+\* common.Median tabulated from the real code on enumerated lists
+TraceMedian ==
+    /\ Line.a = "Median"
+    /\ LET rows == Line.x.rows IN
+       /\ viol' = AddCapped(viol, Checks("C18", "Inv_C18_MedianFunction",
+                        \A k \in 1..Len(rows) : Median(AsSeq(rows[k].l)) = rows[k].m))
+       /\ stats' = [ stats EXCEPT !.lines = @ + 1, !.inserts = @ + Len(rows) ]
+    /\ UNCHANGED << D, nodes, dlv, sto, psto, rrv, meta, sub, drift >>
 
 \* lines that carry no specification step (the driver could not run the step)
 TraceNoop ==
     /\ Line.a \in { "SyncFail", "Note" }
     /\ stats' = Bump(stats, "lines")
-    /\ UNCHANGED << D, nodes, dlv, sto, psto, rrv, sub, viol, drift >>
+    /\ UNCHANGED << D, nodes, dlv, sto, psto, rrv, meta, sub, viol, drift >>
 
 TraceStep ==
     /\ l <= NLines
     /\ l' = l + 1
     /\ \/ TraceReset \/ TraceCreate \/ TraceSubmit \/ TraceSync \/ TraceNoop
+       \/ TraceQuorum \/ TraceQuorumAccept \/ TraceMedian
 
 TraceDone ==
     /\ l = NLines + 1
@@ -411,7 +490,7 @@ TraceDone ==
     /\ PrintT(<< "@@DRIFT", drift >>)
     /\ PrintT(<< "@@STATS", stats >>)
     /\ PrintT(<< "@@DONE", NLines >>)
-    /\ UNCHANGED << D, nodes, dlv, sto, psto, rrv, sub, viol, drift, stats >>
+    /\ UNCHANGED << D, nodes, dlv, sto, psto, rrv, meta, sub, viol, drift, stats >>
 
 TNext == TraceStep \/ TraceDone
 
